@@ -196,6 +196,9 @@ var c01Bundles = map[string]c01Bundle{
 	"counter-additive": {tag: "div", decl: "counter-reset:c 12 d 0 e -2 f 7", rules: `@counter-style ad0{system:additive;additive-symbols:5 V, 0 Z}@counter-style ad1{system:additive;additive-symbols:3 "c", 2 "b";range:-5 20;pad:6 "."}@counter-style ad2{system:additive;additive-symbols:0 "z", 0 "y"}%s::before{content:counter(c,ad0) counter(d,ad0) counter(e,ad0) counter(f,ad0) counter(c,ad1) counter(d,ad1) counter(e,ad1) counter(f,ad1) counter(c,ad2) counter(d,ad2)}`},
 	"counter-systems":  {tag: "div", decl: "counter-reset:c 0 d -3 e 40", rules: `@counter-style al{system:alphabetic;symbols:a b;range:-9 99}@counter-style nu{system:numeric;symbols:"0" "1";negative:"((" "))";pad:9 "_"}@counter-style sy{system:symbolic;symbols:"*";range:-9 99}@counter-style fx{system:fixed -2;symbols:p q r}@counter-style cy{system:cyclic;symbols:u v w;pad:3 ""}@counter-style ex{system:extends al;prefix:"<";suffix:">";fallback:ex}%s::before{content:counter(c,al) counter(d,al) counter(e,al) counter(c,nu) counter(d,nu) counter(e,nu) counter(c,sy) counter(d,sy) counter(e,sy) counter(c,fx) counter(d,fx) counter(e,fx) counter(c,cy) counter(d,cy) counter(e,cy) counter(d,ex) counters(e,".",ex)}`},
 	"counter-symbols":  {tag: "li", decl: "display:list-item;counter-reset:list-item -2;list-style:symbols(alphabetic 'a')", rules: `%s::before{content:counter(list-item,symbols(numeric "0")) counter(list-item,symbols(fixed "f")) counter(list-item,symbols(additive "x")) counter(list-item,symbols("s" "t")) counter(list-item,"str")}`},
+	// auto-placed grid items whose spans overflow the explicit columns / rows (dense and sparse), items locked to a row
+	"grid-spans":       {tag: "div", decl: "display:grid;grid-template-columns:10px 10px 10px;grid-auto-flow:row dense", inner: `<div style="grid-column:span 2;grid-row:span 2">a</div><div style="grid-column:span 2;grid-row:span 2">b</div><div style="grid-row:1">c</div><div style="grid-column:3 / span 2">d</div><div style="grid-column:span 4">e</div>`, void: true},
+	"grid-spans-sparse": {tag: "div", decl: "display:grid;grid-template-columns:10px 10px 10px", inner: `<div style="grid-column:span 2;grid-row:span 2">a</div><div style="grid-column:span 2;grid-row:span 2">b</div><div style="grid-row:1">c</div><div style="grid-column:2">d</div><div style="grid-row:2 / span 3;grid-column:span 3">e</div>`, void: true},
 	"full-list":      {tag: "ol", attrs: `start="3"`, decl: "list-style:upper-roman outside;margin-left:20px", inner: `<li>item 1</li><li>item 2</li><li>item 3</li><li>item 4</li><li>item 5</li><li>item 6</li><li><ul><li>n1<li>n2</ul></li>`, void: true},
 	"full-flex":      {tag: "div", decl: "display:flex;flex-wrap:wrap;gap:2px;align-items:center", inner: `<div style="flex:1 0 40px">f1 f1</div><div style="flex:2 1 30px;order:-1">f2</div><div style="width:50px;height:40px">f3</div><div style="margin:auto">f4</div><div style="flex-basis:100%">f5 f5 f5 f5</div>`, void: true},
 	"full-grid":      {tag: "div", decl: "display:grid;grid-template-columns:repeat(3,1fr);grid-auto-rows:20px;gap:1px", inner: `<div>g1</div><div style="grid-column:span 2">g2</div><div style="grid-row:span 2">g3</div><div>g4</div><div>g5</div><div>g6</div><div>g7</div>`, void: true},
